@@ -1,4 +1,5 @@
 """C12 - algorithms get each completed trial exactly once, and all active trials (DESIGN §3 C12)."""
+import contextlib
 import copy
 
 from simkit import clock as simclock
@@ -29,6 +30,9 @@ class Ledger:
     self.nonempty_updates = 0
     self.sizes = []
     self.last_cause = 'other'
+    # A new lineage (fresh algorithm instance in a state-persisting mode) is legitimate for the first
+    # update of a study and after an injected loss / corruption of the persisted state - not otherwise.
+    self.allow_fresh = True
 
   def observe(self, ids_now):
     ids_now = set(ids_now)
@@ -49,6 +53,14 @@ class Ledger:
     if len(set(got_ids)) != len(got_ids):
       v.append(('completed-trial-delivered-twice', f'update() received duplicates: {got_ids}'))
     got = {(i, self.inc.get(i, 1)) for i in got_ids}
+    if getattr(self, 'expect_fresh', False):
+      self.expect_fresh = False
+      if not ev['fresh']:
+        v.append(('state-of-deleted-study-reused', 'the first update() of a re-created study went to an algorithm instance that had been updated or restored before'))
+    if ev['fresh'] and self.mode != 'rebuild' and not self.allow_fresh:
+      v.append(('algorithm-state-discarded',
+                f'update() #{self.updates} went to a fresh algorithm instance although state had been persisted and none was lost (completed given: {got_ids})'))
+    self.allow_fresh = False
     if self.mode == 'rebuild' or ev['fresh']:
       if ev['fresh'] and self.mode != 'rebuild':
         self.lineages += 1
@@ -97,9 +109,11 @@ class C12(runner.Check):
           'PartiallySerializableDesignerPolicy hosted by the real service (policy rebuilt per request, state '
           'through study metadata -> proto -> RAM/SQLite datastore, with clean server restarts and injected '
           'loss / corruption of the persisted state), behind DesignerPolicy (fresh designer per request), or '
-          'behind InRamPolicySupporter with the policy object kept alive or rebuilt; workload = suggests of '
+          'behind InRamPolicySupporter with the policy object kept alive or rebuilt, or the real grid / '
+          'quasi-random / eagle designers behind the DefaultPolicyFactory (observed at Designer.update()); workload = suggests of '
           'any batch size by several workers, out-of-order feasible/infeasible completions, externally '
-          'added completed trials, requests, deletions (incl. the highest id); oracle = delivery ledger '
+          'added completed trials, requests, deletions (incl. the highest id), delete-and-re-create of the '
+          'study; oracle = delivery ledger '
           'evaluated inside every Designer.update(); distinct = hash of (mode, sequence of delivered-set '
           'sizes, restart / state-loss positions); non-trivial iff >=2 updates with a non-empty completed set '
           'and >=1 restart, state loss or deletion')
@@ -113,12 +127,17 @@ class C12(runner.Check):
   probes = ['probe.update-with-completed', 'probe.restored-from-metadata', 'probe.state-lost-new-lineage',
             'probe.deletion', 'probe.external-completed-trial', 'probe.infeasible-completion',
             'restart.clean', 'probe.stopping-trial-present', 'probe.mode.service-serializable', 'probe.mode.service-rebuild',
-            'probe.mode.inram-alive', 'probe.mode.inram-rebuilt', 'probe.id-reused-after-delete']
+            'probe.mode.inram-alive', 'probe.mode.inram-rebuilt', 'probe.id-reused-after-delete',
+            'probe.mode.service-default', 'probe.study-recreated']
 
   def gen(self, rng, idx, tier):
-    mode = rng.choice(['service-serializable'] * 4 + ['service-rebuild', 'inram-alive', 'inram-rebuilt'])
+    mode = rng.choice(['service-serializable'] * 4 + ['service-default'] * 2 + ['service-rebuild', 'inram-alive', 'inram-rebuilt'])
     cfg = {'mode': mode, 'backend': rng.choice(['ram', 'ram', 'sqlmem', 'sqlfile']), 'algorithm': 'RECORDING',
            'space': 'int10', 'epoch': simclock.EPOCH + rng.randrange(10**6)}
+    if mode == 'service-default':
+      # the production path: DefaultPolicyFactory and the real designers, observed at Designer.update()
+      cfg['algorithm'] = rng.choice(['GRID_SEARCH', 'GRID_SEARCH', 'QUASI_RANDOM_SEARCH', 'EAGLE_STRATEGY'])
+      cfg['space'] = rng.choice(['int10', 'mixed'])
     ss = {'o': 0, 'd': 0}
     ops = [['CreateStudy', {'o': 0, 'd': 0, 'state': 'ACTIVE'}]]
     n = rng.randrange(5, 25 if tier == 'quick' else 45)
@@ -126,6 +145,8 @@ class C12(runner.Check):
              + ['Reopen', 'CorruptState', 'M:reuse', 'StopTrial', 'StopTrial'])
     if rng.random() < 0.5:
       kinds = [k for k in kinds if k not in ('DeleteTrial', 'M:reuse')]  # swarm: deletion-free runs
+    if mode.startswith('service') and rng.random() < 0.3:
+      kinds = kinds + ['RecreateStudy']  # the study is deleted and a study of the same name is created
     while len(ops) < n:
       k = rng.choice(kinds)
       if k == 'SuggestTrials':
@@ -178,12 +199,15 @@ class C12(runner.Check):
   # ------------------------------------------------------------- service
   def _run_service(self, plan, res):
     cfg = plan['cfg']
-    mode = 'serializable' if cfg['mode'] == 'service-serializable' else 'rebuild'
+    mode = 'rebuild' if cfg['mode'] == 'service-rebuild' else 'serializable'
     ledger = Ledger(mode)
     log = []
     P.RecordingDesigner.LOG = log
     P.RecordingDesigner.SPACE = cfg.get('space', 'int10')
-    world = O.World(cfg, backend=cfg['backend'], policy_factory=P.RecordingFactory(mode))
+    default_factory = cfg['mode'] == 'service-default'
+    patches = P.recording_real_designers() if default_factory else contextlib.nullcontext()
+    patches.__enter__()
+    world = O.World(cfg, backend=cfg['backend'], policy_factory=None if default_factory else P.RecordingFactory(mode))
     main = O.study_name(0, 0)
     marks = []
     viol = []
@@ -221,8 +245,21 @@ class C12(runner.Check):
             res.bump('restart.clean')
             marks.append(('reopen', step))
           continue
+        if kind == 'RecreateStudy':
+          # A new study under the old name: nothing of the dead study may reach it, so the
+          # ledger starts empty and its first update must come from a fresh designer.
+          r1 = O.call(sv.DeleteStudy, vs.DeleteStudyRequest(name=main))
+          r2 = O.execute(sv, {'kind': 'CreateStudy', 'owner': 0, 'display': 0, 'state': 'ACTIVE'}, cfg)
+          if r1[0] == 'ok' and r2[0] == 'ok':
+            carried = (ledger.updates, ledger.nonempty_updates, ledger.sizes)
+            ledger.__init__(mode)
+            ledger.updates, ledger.nonempty_updates, ledger.sizes = carried
+            ledger.expect_fresh = True
+            res.bump('probe.study-recreated')
+            marks.append(('recreate', step))
+          continue
         if kind == 'CorruptState':
-          if mode != 'serializable':
+          if mode != 'serializable' or default_factory:
             continue
           req = vs.UpdateMetadataRequest(name=main)
           u = req.delta.add()
@@ -233,6 +270,7 @@ class C12(runner.Check):
           r = O.call(sv.UpdateMetadata, req)
           if r[0] == 'ok':
             corrupted = True
+            ledger.allow_fresh = True
             marks.append(('state-lost', step))
           continue
         c = O.resolve(op, O.View(sv))
@@ -261,7 +299,11 @@ class C12(runner.Check):
           seen = set(v['clause'] + str(v['sig']) for v in res.violations)
           stop = False
           for clause, detail in viol:
-            sig = {'mode': cfg['mode'], 'cause': ledger.last_cause if clause == 'completed-trial-not-delivered' else 'n/a'}
+            # 'service-default' is the same hosting mode (policy rebuilt per request, state through study
+            # metadata) with the production factory instead of the recording one
+            sig = {'mode': 'service-serializable' if default_factory else cfg['mode'],
+                   'factory': 'default' if default_factory else 'recording',
+                   'cause': ledger.last_cause if clause == 'completed-trial-not-delivered' else 'n/a'}
             if sig['cause'] != 'id-reused-after-delete':
               stop = True
             if clause + str(sig) not in seen:
@@ -274,6 +316,7 @@ class C12(runner.Check):
         res.bump('probe.id-reused-after-delete')
     finally:
       world.destroy()
+      patches.__exit__(None, None, None)
       P.RecordingDesigner.LOG = None
     res.evaluation((cfg['mode'], tuple(ledger.sizes), tuple(m[0] for m in marks)),
                    ledger.nonempty_updates >= 2 and bool(marks))
@@ -312,7 +355,7 @@ class C12(runner.Check):
     try:
       for step, op in enumerate(plan['ops']):
         kind = op[0]
-        if kind in ('CreateStudy', 'DeleteTrial', 'StopTrial'):
+        if kind in ('CreateStudy', 'DeleteTrial', 'StopTrial', 'RecreateStudy'):
           continue
         if kind == 'Reopen':
           # "server restart" for the in-RAM host = the policy object is rebuilt;
@@ -328,6 +371,7 @@ class C12(runner.Check):
           else:
             ns.ns('cache')['incorporated_completed_trials_ids'] = '{not json'
           policy = new_policy()
+          ledger.allow_fresh = True
           marks.append(('state-lost', step))
           res.bump('probe.state-lost-new-lineage')
           continue
